@@ -101,3 +101,51 @@ def plan_C11(tier, seed, q):
             "SHA-256 at the end, canary bytes of caller-supplied buffers beyond the encoded reply untouched",
             "jobs": e2e_jobs("C11", tier, seed, "retain", 240, 3000, race_t=300) + e2e_jobs("C11", tier, seed + 7, "mix", 120, 1500),
             "min_evaluations": 100, "min_distinct": 50, "assumptions": V_ASSUME}
+
+
+def sched_jobs(prop, tier, seed, specs, shards=6, kind="vt", timeout=1500):
+    jobs = []
+    for ex in specs:
+        for s in range(shards):
+            args = {"prop": prop, "tier": tier, "seed": seed, "from": s, "to": 0, "stride": shards, "extra": ex}
+            jobs.append(Job(kind, "sched", args, timeout=timeout))
+    return jobs
+
+
+SCHED_RULE = ("script = sequence of boundary events over N outstanding operations (forms rotate over Go, RoundTrip, Call, "
+              "CallWithContext, Ping; header encoder and client mode rotate) from {write i succeeds, write i fails, response i, "
+              "error response i, duplicate i, unknown-seq response, peer EOF, read error, local Close%s}, released one at a time by a "
+              "scripted peer with synctest.Wait() between events (or the last two concurrently in the racing variants), then Close; "
+              "ALL statically valid scripts up to the stated length are enumerated; distinct = distinct script (x racing flag); "
+              "non-trivial = contains a terminating event or at least two events")
+
+
+def plan_C02(tier, seed, q):
+    if q:
+        specs = [{"n": 2, "l": 5}, {"n": 3, "l": 4}, {"n": 2, "l": 4, "race": 4}]
+        jobs = sched_jobs("C02", tier, seed, specs, shards=4)
+    else:
+        specs = [{"n": 2, "l": 6}, {"n": 3, "l": 5}, {"n": 3, "l": 4, "race": 6}, {"n": 1, "l": 6}]
+        jobs = sched_jobs("C02", tier, seed, specs, shards=8, timeout=3000)
+        jobs += sched_jobs("C02", tier, seed, [{"n": 2, "l": 4, "race": 3}, {"n": 3, "l": 3}], shards=4, kind="vt-race", timeout=3000)
+    return {"level": "fault_enumeration", "exhaustive": True,
+            "rule": SCHED_RULE % "" + "; oracle: every operation is signalled exactly once (Done arrivals counted on a channel with room; "
+            "blocking forms return once), Error unchanged after the first signal, successful replies == f(args), and fresh pooled "
+            "calls parked on a second connection are not completed by a late signal (canary)",
+            "jobs": jobs, "min_evaluations": 1000, "min_distinct": 500, "parallel": 14,
+            "assumptions": V_ASSUME + ["the scripted peer replaces the socket below ClientCodec (socket.Messages level)"]}
+
+
+def plan_C19(tier, seed, q):
+    if q:
+        specs = [{"n": 2, "l": 5, "ctx": True}, {"n": 3, "l": 4, "ctx": True, "race": 2}]
+        jobs = sched_jobs("C19", tier, seed, specs, shards=4) + e2e_jobs("C19", tier, seed, "ctx", 240, 3000, shards=6)
+    else:
+        specs = [{"n": 2, "l": 6, "ctx": True}, {"n": 3, "l": 5, "ctx": True, "sample": 3}, {"n": 3, "l": 4, "ctx": True, "race": 5}]
+        jobs = sched_jobs("C19", tier, seed, specs, shards=8, timeout=3000) + e2e_jobs("C19", tier, seed, "ctx", 240, 4000, race_t=400)
+    return {"level": "exploration",
+            "rule": SCHED_RULE % ", cancel context i (only after request i has been written)" + "; every operation is a CallWithContext (with and "
+            "without context buffer); oracles: after a cancel event the call has returned at quiescence, siblings complete once with "
+            "f(args); plus e2e profile 'ctx': deadlines shorter than the handler delay on the real server, return instant == deadline "
+            "in virtual time, context buffer used iff the encoded reply fits, canary bytes intact",
+            "jobs": jobs, "min_evaluations": 1000, "min_distinct": 500, "parallel": 14, "assumptions": V_ASSUME}
